@@ -181,7 +181,7 @@ def run_case(job):
 
 def _robustify(out, case, cfg, pm, timeout_ms, opts=None):
   """Re-runs the case and, for each refuted goal, looks for a model violating it by a margin."""
-  from . import expr as E, harness as H, ctx as C, solve
+  from . import expr as E, harness as H, ctx as C, solve, tfc
   want = {(g['name'], tuple(g['path'])) for g in out['goals'] if g['status'] == 'refuted'}
   E.reset()
   found = {}
@@ -205,6 +205,8 @@ def _robustify(out, case, cfg, pm, timeout_ms, opts=None):
         try:
           o = real(*args, **kw)
         except (ValueError, TypeError, IndexError, KeyError, AssertionError, ZeroDivisionError) as e:
+          if type(ct).raised is H.Contract.raised and not isinstance(e, (tfc.NoContract, E.SymbolicValueError)):
+            return [('returns-normally: raised %s: %s' % (type(e).__name__, str(e).splitlines()[0][:120] if str(e) else ''), E.FALSE)]
           o = ct.raised(e, *args, **kw)
         else:
           o = ct.view(o, *args, **kw)
@@ -702,7 +704,15 @@ def conclude(pm, tier, seed, results, t0, extra=None, run_jobs=None, opts=None):
     lc = case.lift_case or g['_case']
     groups.setdefault((lc, json.dumps(g['_cfg'], sort_keys=True, default=str)), []).append(g)
   if groups and run_jobs is not None:
-    keys = list(groups)[:16]
+    cap = 16 if tier == 'quick' else 400
+    keys = list(groups)[:cap]
+    # modular failures beyond the cap are neither lifted nor confirmed natively: undecided, not violations
+    for key in list(groups)[cap:]:
+      for g in groups[key]:
+        g['lifted'] = 'not-lifted'
+        g['status'] = 'unknown'
+        g['detail'] = 'modular failure (callee contracts too weak for this clause), not re-verified inline: lift cap %d' % cap
+        unknown.append(g)
     lopts = dict(opts or {}, inline=True, xcheck=False, timeout_ms=4000, margins=False)
     lwork = [(pm.__name__, lc, groups[(lc, cj)][0]['_cfg'], lopts) for (lc, cj) in keys]
     lres = run_jobs(lwork)
@@ -747,7 +757,14 @@ def conclude(pm, tier, seed, results, t0, extra=None, run_jobs=None, opts=None):
           b0['replay'] = _replay_evaluate(pm, b0['_case'], b0['_cfg'], b0.get('model'), d, n2)
       except Exception as e:  # pylint: disable=broad-except
         errors.append({'case': 'replay', 'cfg': {}, 'error': 'native replay (lift) failed: %s' % e})
-  refuted = [g for g in refuted if g.get('lifted') not in ('proved-inline', 'refuted-inline')] + new_refuted
+  refuted = [g for g in refuted if g.get('lifted') not in ('proved-inline', 'refuted-inline', 'not-lifted')] + new_refuted
+  # "returns-normally" refutations come from an exception during symbolic execution; they are violations
+  # only when the real code raises natively too, otherwise the contract library is at fault (exit 3)
+  for g in [g for g in refuted if g['name'].startswith('returns-normally')]:
+    rep = g.get('replay')
+    if not (rep and rep.get('failing')):
+      refuted.remove(g)
+      errors.append({'case': g['_case'], 'cfg': g['_cfg'], 'error': 'symbolic execution raised but the real code does not: ' + g['name']})
   for g in refuted:
     cfg = g['_cfg']
     kn = [k for k in known if matches_known(k, g, cfg)]
